@@ -68,6 +68,13 @@ AREAS = {
                 '(empty, NUL only, no terminator, CR/LF/TAB, non-UTF-8 / non-ASCII bytes, 65535 bytes), raw data 0-5 bytes; both byte orders via '
                 'payload_from_args, host order via the serde serializer; a third of the cases truncated at a random byte, a sixth with one corrupted byte',
     },
+    'lc8': {
+        'shrink_sep': ';',
+        'rule': 'clean traces with ground truth: 1-3 (thorough 1-4) ECUs interleaved arbitrarily, 1-4 (1-6) boots each of 1/2/3/5/8 messages in arbitrary '
+                'order inside the boot, first timestamp 0 in half of the boots, boot start (= boot time + delay) after / up to 30 s before / up to 2 s before '
+                'the end of the previous boot subject to cleanness (every message received > 1 ms after every message of the previous boot); '
+                'non-trivial = tagged (several boots, several ECUs, resume flagged, inside / outside the claimed region)',
+    },
     'dp': {
         'shrink_sep': ';', 'head_sep': None,
         'rule': 'byte streams built from items: well-formed messages (all 32 combinations of the optional header parts, both byte orders, '
@@ -139,6 +146,11 @@ PROPS = {
         'id': 'C18', 'area': 'arg',
         'theorems': ['Props.C18_roundtrip', 'Props.C18_prefix', 'Props.C18_text', 'Props.C18_consts'],
         'n_quick': 5000, 'n_thorough': 200000,
+    },
+    'C08': {
+        'id': 'C08', 'area': 'lc8',
+        'theorems': ['Props.C08_same_boot_belongs', 'Props.C08_absorb_same_boot', 'Props.C08_next_boot_fresh', 'Props.C08_excluded_witness'],
+        'n_quick': 4000, 'n_thorough': 150000, 'project': _lc_project,
     },
     'C05': {
         'id': 'C05', 'area': 'lc',
